@@ -31,6 +31,11 @@ type Prog struct {
 	postdoms map[*ssa.Function]*postDom
 
 	ifaceMethodNames map[string]bool
+
+	// Renames: recorded anchor names that were resolved to a renamed function (ANCHORS)
+	Renames []string
+	// recorded: function names of the anchor table (nil without a table)
+	recorded map[string]bool
 }
 
 // Load type-checks ./... under repo (non-test files, real build flags) and
@@ -99,6 +104,9 @@ func Load(repo string, overlay map[string][]byte, env []string) (*Prog, error) {
 	}
 	sort.Slice(p.Funcs, func(i, j int) bool { return FuncName(p.Funcs[i]) < FuncName(p.Funcs[j]) })
 	Current = p
+	if AnchorTablePath != "" {
+		p.applyAnchorTable(AnchorTablePath)
+	}
 	return p, nil
 }
 
@@ -142,6 +150,19 @@ func FuncName(fn *ssa.Function) string {
 	}
 	if o := fn.Origin(); o != nil {
 		fn = o
+	}
+	if n, ok := renamed[fn]; ok {
+		return n
+	}
+	if par := fn.Parent(); par != nil {
+		// closures are named after their (possibly aliased) parent
+		ps := par.String()
+		if o := par.Origin(); o != nil {
+			ps = o.String()
+		}
+		if strings.HasPrefix(fn.String(), ps) {
+			return FuncName(par) + CleanName(strings.TrimPrefix(fn.String(), ps))
+		}
 	}
 	return CleanName(fn.String())
 }
